@@ -1950,6 +1950,323 @@ def id_same(x):
 
 def hash_eq(x):
     return hash(x) == hash(x)
+
+from abc import ABC, abstractmethod
+
+
+@dataclass(frozen=True)
+class Inner:
+    a: int
+    b: str = "x"
+
+
+@dataclass(frozen=True)
+class Outer:
+    inner: Inner
+    tag: str | None = None
+
+    @classmethod
+    def make(cls, a, tag=None):
+        return cls(inner=Inner(a), tag=tag)
+
+    def with_tag(self, tag):
+        return Outer(self.inner, tag)
+
+
+@dataclass
+class Validated:
+    n: int = 0
+
+    def __post_init__(self):
+        if self.n < 0:
+            raise ValueError("negative")
+        self.doubled = self.n * 2
+
+
+@dataclass
+class BaseCfg:
+    x: int = 1
+    y: int = 2
+
+
+@dataclass
+class SubCfg(BaseCfg):
+    z: int = 3
+
+
+class Shape(ABC):
+    @abstractmethod
+    def area(self):
+        ...
+
+    def describe(self):
+        return "area=" + str(self.area())
+
+
+class Square(Shape):
+    def __init__(self, s):
+        self.s = s
+
+    def area(self):
+        return self.s * self.s
+
+
+class NoSuperInit(Exception):
+    def __init__(self, code):
+        self.code = code
+
+
+class TwoArgErr(Exception):
+    pass
+
+
+class Level(enum.Enum):
+    LOW = 1
+    HIGH = 2
+
+
+class Animal:
+    sound = "..."
+
+    def __init__(self, name, **kw):
+        self.name = name
+        self.extra = kw.get("extra", 0)
+
+    def speak(self):
+        return self.name + " says " + self.sound
+
+
+class Dog(Animal):
+    sound = "woof"
+
+    def __init__(self, name, tricks=0, **kw):
+        super().__init__(name, **kw)
+        self.tricks = tricks
+
+
+def nested_dataclass_eq(a):
+    return (Outer.make(a) == Outer.make(a), Outer.make(a) == Outer.make(a + 1), Outer.make(a, "t") == Outer.make(a))
+
+
+def dataclass_factory_fields(a):
+    o = Outer.make(a, tag="t").with_tag(None)
+    return (o.inner.a, o.inner.b, o.tag)
+
+
+def dataclass_hash_frozen(a):
+    return hash(Inner(a)) == hash(Inner(a))
+
+
+def dataclass_in_set(a):
+    return len({Inner(a), Inner(a), Inner(a + 1)})
+
+
+def dataclass_as_dict_key(a):
+    d = {Inner(a): 1}
+    return d.get(Inner(a), 0)
+
+
+def post_init_raises(n):
+    try:
+        return Validated(n).doubled
+    except ValueError as e:
+        return str(e)
+
+
+def dataclass_inherit_defaults(a):
+    s = SubCfg(y=a)
+    return (s.x, s.y, s.z)
+
+
+def dataclass_positional_too_many(a):
+    return BaseCfg(1, 2, 3)
+
+
+def dataclass_unknown_kw(a):
+    return BaseCfg(q=a)
+
+
+def dataclass_repr_contains(a):
+    return "Inner(a=" in repr(Inner(a))
+
+
+def abstract_instantiate(a):
+    return Shape()
+
+
+def abstract_template(a):
+    return Square(a).describe()
+
+
+def exc_no_super_init(c):
+    try:
+        raise NoSuperInit(c)
+    except NoSuperInit as e:
+        return (e.code, str(e), len(e.args))
+
+
+def exc_two_args_str(a, b):
+    try:
+        raise TwoArgErr(a, b)
+    except TwoArgErr as e:
+        return str(e)
+
+
+def exc_no_args_str(a):
+    try:
+        raise TwoArgErr()
+    except TwoArgErr as e:
+        return (str(e), len(e.args))
+
+
+def exc_class_raise(a):
+    try:
+        raise TwoArgErr
+    except TwoArgErr as e:
+        return type(e).__name__
+
+
+def exc_isinstance_base(a):
+    try:
+        raise SubErr("s")
+    except Exception as e:
+        return (isinstance(e, MyErr), isinstance(e, SubErr), isinstance(e, ValueError))
+
+
+def exc_attribute_msg(a):
+    try:
+        raise ValueError(a)
+    except ValueError as e:
+        return e.args[0]
+
+
+def enum_int_values(n):
+    return Level(n).name
+
+
+def enum_int_compare(n):
+    return Level(n) == Level.HIGH
+
+
+def enum_members_len(n):
+    return len(list(Level))
+
+
+def enum_value_arith(n):
+    return Level.HIGH.value + n
+
+
+def inherit_kwargs(a):
+    d = Dog("rex", tricks=a, extra=5)
+    return (d.speak(), d.tricks, d.extra)
+
+
+def inherit_class_attr(a):
+    return (Animal("cat").speak(), Dog.sound, Animal.sound)
+
+
+def super_missing_arg(a):
+    return Dog()
+
+
+def method_on_class_unbound(a):
+    return Animal.speak(Dog("x"))
+
+
+def bool_subclass_arith(a):
+    return True + True + a
+
+
+def int_of_bool(a):
+    return int(a)
+
+
+def float_sum_inexact(a):
+    return 0.1 + 0.2 == 0.3
+
+
+def float_sum_value(a):
+    return a + 0.25
+
+
+def str_of_tuple_exc(a):
+    return str(ValueError("a", 2))
+
+
+def cast_identity(a):
+    from typing import cast
+    return cast(int, a) + 1
+
+
+def getattr_method_call(a):
+    return getattr(Square(a), "area")()
+
+
+def dict_of_lists_alias(a):
+    shared = []
+    d = {"x": shared, "y": shared}
+    d["x"].append(a)
+    return len(d["y"])
+
+
+def tuple_immutable(a):
+    t = (1, 2)
+    t[0] = a
+    return t
+
+
+def str_immutable(a):
+    s = "abc"
+    s[0] = "x"
+    return s
+
+
+def unbound_local(a):
+    if a > 100:
+        y = 1
+    return y
+
+
+def name_error(a):
+    return undefined_name + a
+
+
+def wrong_arg_count(a):
+    def f(x):
+        return x
+    return f(a, a)
+
+
+def kwargs_passthrough(a):
+    def inner(x, y=0, **kw):
+        return x + y + len(kw)
+    def outer(**kw):
+        return inner(1, **kw)
+    return outer(y=a, z=1)
+
+
+def star_args_call(a):
+    def f(x, y, z=0):
+        return x * 100 + y * 10 + z
+    args = (1, a)
+    return f(*args, z=3)
+
+
+def default_evaluated_once(a):
+    def f(x, cache={}):
+        cache[x] = cache.get(x, 0) + 1
+        return cache[x]
+    f(a)
+    return f(a)
+
+
+def conditional_expr_eval(a):
+    calls = []
+    def t(v):
+        calls.append(v)
+        return v
+    r = t(1) if a else t(2)
+    return (r, len(calls))
 '''
 
 CASES = [
@@ -2279,6 +2596,49 @@ CASES = [
     ('callable_check', [(1,)]),
     ('id_same', [(1,)]),
     ('hash_eq', [(1,), ('a',)]),
+    ('nested_dataclass_eq', [(1,)]),
+    ('dataclass_factory_fields', [(1,)]),
+    ('dataclass_hash_frozen', [(1,)]),
+    ('dataclass_in_set', [(1,)]),
+    ('dataclass_as_dict_key', [(1,)]),
+    ('post_init_raises', [(2,), (-1,)]),
+    ('dataclass_inherit_defaults', [(9,)]),
+    ('dataclass_positional_too_many', [(1,)]),
+    ('dataclass_unknown_kw', [(1,)]),
+    ('dataclass_repr_contains', [(1,)]),
+    ('abstract_instantiate', [(1,)]),
+    ('abstract_template', [(3,)]),
+    ('exc_no_super_init', [(7,)]),
+    ('exc_two_args_str', [('a', 2)]),
+    ('exc_no_args_str', [(1,)]),
+    ('exc_class_raise', [(1,)]),
+    ('exc_isinstance_base', [(1,)]),
+    ('exc_attribute_msg', [('m',)]),
+    ('enum_int_values', [(1,), (2,), (3,)]),
+    ('enum_int_compare', [(1,), (2,)]),
+    ('enum_members_len', [(1,)]),
+    ('enum_value_arith', [(1,)]),
+    ('inherit_kwargs', [(2,)]),
+    ('inherit_class_attr', [(1,)]),
+    ('super_missing_arg', [(1,)]),
+    ('method_on_class_unbound', [(1,)]),
+    ('bool_subclass_arith', [(1,)]),
+    ('int_of_bool', [(True,), (False,)]),
+    ('float_sum_inexact', [(1,)]),
+    ('float_sum_value', [(0.5,)]),
+    ('str_of_tuple_exc', [(1,)]),
+    ('cast_identity', [(1,)]),
+    ('getattr_method_call', [(3,)]),
+    ('dict_of_lists_alias', [(1,)]),
+    ('tuple_immutable', [(1,)]),
+    ('str_immutable', [(1,)]),
+    ('unbound_local', [(1,), (200,)]),
+    ('name_error', [(1,)]),
+    ('wrong_arg_count', [(1,)]),
+    ('kwargs_passthrough', [(5,)]),
+    ('star_args_call', [(2,)]),
+    ('default_evaluated_once', [(1,)]),
+    ('conditional_expr_eval', [(True,), (False,)]),
 ]
 
 
